@@ -48,10 +48,15 @@ def install(ctx, rec=None, scrubbers=True):
 
     # -- ChunkParser -----------------------------------------------------
     CP = PP.ChunkParser
-    chunk_ids = {}
+    counter = [0]
 
     def cid(obj):
-        return chunk_ids.setdefault(id(obj), len(chunk_ids))
+        # id() values are reused once an object is freed: number the
+        # ChunkParser objects themselves.
+        if '_pv_cid' not in obj.__dict__:
+            counter[0] += 1
+            obj.__dict__['_pv_cid'] = counter[0]
+        return obj.__dict__['_pv_cid']
 
     def before_init(args, kwargs):
         ctx.hit('hook:ChunkParser.__init__')
